@@ -163,6 +163,7 @@ var (
 )
 
 var bindTypes = map[string]reflect.Type{
+	"Result":      reflect.TypeOf(flyt.Result{}), // a flyt.Result is an ordinary value: stored, bound, wrapped in another Result
 	"int":         reflect.TypeOf(int(0)),
 	"uint8":       reflect.TypeOf(uint8(0)),
 	"float64":     reflect.TypeOf(float64(0)),
@@ -393,6 +394,12 @@ var bindBuilders = map[string]bindBuilder{
 		return &u
 	}},
 	"pint": {"pInt", "ok", func(n int) any { return ip(n) }},
+	"result": {"Result", "ok", func(n int) any {
+		if n%3 == 2 {
+			return flyt.NewErrorResult(errors.New("an error result as a value"))
+		}
+		return flyt.NewResult(map[string]any{"id": n, "name": "wrapped"})
+	}},
 	"chan": {"chan", "err", func(n int) any { return bindChans[n%2] }},
 	"func": {"func", "err", func(n int) any { return bindFuncs[n%2] }},
 }
